@@ -45,4 +45,32 @@ def probe_c03(oblig, tier, seed):
     return {'found': False, 'tried': tried}
 
 
-PROBES = {'C03': probe_c03}
+def probe_c06(oblig, tier, seed):
+    """job-table histories through the hook module: launches with non-monotone pids, removals in every order;
+    reference = the table the property statement prescribes (exactly the live pids, smallest free id)."""
+    from . import hookreplay as H
+    rnd = random.Random(seed)
+    pidsets = [[500, 3], [3, 500], [7, 9, 8], [9, 8, 7], [5, 4, 6]]
+    tried = 0
+    for pids in pidsets:
+        for order in itertools.permutations(pids):
+            gid = pids[0]
+            script, expect, live = [], [], list(pids)
+            for p in pids:
+                script.append('insert %d %d 0' % (gid, p))
+            for p in order:
+                script.append('remove %d %d' % (gid, p))
+                live.remove(p)
+                expect.append('removed_job %d' % (0 if live else 1))
+                script.append('dump')
+                expect.append('table' + (' [id=1 jid=1 gid=%d status=Running bg=0 pids=%s stopped=[]]' % (gid, live) if live else ''))
+            tried += 1
+            w = {'via': 'hook', 'script': script, 'expect': expect}
+            bad, detail = H.run(w)
+            if bad:
+                w.update(found=True, observed=detail)
+                return w
+    return {'found': False, 'tried': tried}
+
+
+PROBES = {'C03': probe_c03, 'C06': probe_c06}
